@@ -103,11 +103,11 @@ def gen_cases(rng, tier):
 		parent = rng.choice([1, 2**64 - 1, 2**63, rng.randrange(1, 2**64)])
 		cases.append({
 			'kind': 'txnamespace', 'name': name, 'registration': registration, 'parent': parent,
-			'embedded': bool(i // 5 % 2), 'network': ['testnet', 'mainnet'][i // 10 % 2]})
+			'embedded': bool(i // 5 % 2), 'network': ['testnet', 'mainnet'][i // 10 % 2], 'autosort': i % 3 != 2})
 	for i in range(max(12, n // 4)):
 		cases.append({
 			'kind': 'txmosaic', 'signer': rand_bytes(rng, 32).hex(), 'nonce': rng.choice([0, 1, 2**32 - 1, 2**31, rng.randrange(2**32)]),
-			'embedded': bool(i % 2), 'network': ['testnet', 'mainnet'][i // 2 % 2]})
+			'embedded': bool(i % 2), 'network': ['testnet', 'mainnet'][i // 2 % 2], 'autosort': i % 3 != 2})
 	# the same signer through both networks' factories, one right after the other, in both orders (the owner address differs by network)
 	for i in range(max(6, n // 10)):
 		signer, nonce = rand_bytes(rng, 32).hex(), rng.randrange(2**32)
@@ -177,7 +177,9 @@ def impl(case):
 		if kind in ('txnamespace', 'txmosaic'):
 			from symbolchain.facade.SymbolFacade import SymbolFacade
 			factory = SymbolFacade(case['network']).transaction_factory
-			transaction = (factory.create_embedded if case['embedded'] else factory.create)(tx_descriptor(case))
+			create = factory.create_embedded if case['embedded'] else factory.create
+			# ids are filled in whether or not the factory is asked to sort keyed arrays
+			transaction = create(tx_descriptor(case)) if case.get('autosort', True) else create(tx_descriptor(case), autosort=False)
 			decoded = type(transaction).deserialize(transaction.serialize())
 			return f'{transaction.id.value}|{decoded.id.value}'
 	except Exception as ex:  # pylint: disable=broad-except
